@@ -5,6 +5,7 @@ package main
 import (
 	"flag"
 	"fmt"
+	"net"
 	"os"
 	"runtime"
 	"runtime/pprof"
@@ -50,6 +51,7 @@ type Config struct {
 	Delay int      `json:"delay_permille"`
 	Soup  bool     `json:"soup"`
 	Class string   `json:"class"`
+	TCP   bool     `json:"loopback_tcp"`
 }
 
 func kindsFor(p protos.P) []string {
@@ -108,6 +110,7 @@ func configs(tierName string, r *core.Rand) []Config {
 		if c.G >= 32 {
 			c.N = ops / 2
 		}
+		c.TCP = i%5 == 4
 		if *lean {
 			c.N = c.N/2 + 1
 		}
@@ -255,6 +258,10 @@ func runCase(id string, cfg Config, r *core.Rand) {
 	for i := 0; i < cfg.S; i++ {
 		cseed := int64(r.Uint64() >> 1)
 		connect := func(a, b erpc.Peer, pfa, pfb erpc.ProtoFunc, prep func(ca, cb *memconn.Conn)) (*bed.Link, error) {
+			if cfg.TCP && p.Stream {
+				// real sockets: Peer.Dial on one side, an accept loop handing connections to ServeConn on the other
+				return connectTCP(a, b, pfa)
+			}
 			if !p.Stream {
 				// websocket sub-protocols: real websocket handshake and framing over the in-memory connection
 				return bed.ConnectWS(a, b, pfa, prep)
@@ -402,7 +409,7 @@ func runCase(id string, cfg Config, r *core.Rand) {
 	core.Add("gate_hits", hits)
 	core.Add("evaluations", cs.callsOK+cs.callsFailed+cs.pushesSent)
 	core.Max("max_handlers_in_flight", mon.MaxFlight)
-	sig := fmt.Sprintf("%s/%s/pipe=%s/S%dG%d/%s/log=%s/delay=%d", cfg.Proto, strings.Join(cfg.Kinds, "+"), cfg.Pipe, cfg.S, cfg.G, cfg.Chunk, cfg.Log, cfg.Delay)
+	sig := fmt.Sprintf("%s/%s/pipe=%s/S%dG%d/%s/log=%s/delay=%d/tcp=%v", cfg.Proto, strings.Join(cfg.Kinds, "+"), cfg.Pipe, cfg.S, cfg.G, cfg.Chunk, cfg.Log, cfg.Delay, cfg.TCP && p.Stream)
 	nontrivial := mon.MaxFlight >= 2 && (mon.Recycles >= 1 || *lean) && cs.callsOK > 0
 	if cfg.S == 1 && cfg.G == 1 {
 		nontrivial = cs.callsOK > 0 && (mon.Recycles >= 1 || *lean)
@@ -464,6 +471,39 @@ func runCase(id string, cfg Config, r *core.Rand) {
 			What: fmt.Sprintf("%s %s: %s (%d observations in this case)", cfg.Proto, k, vs[0].detail, len(vs)),
 			Witness: map[string]interface{}{"observations": details, "total_in_case": cs.nviol}, Desc: cfg, Sig: sig})
 	}
+}
+
+// connectTCP joins the peers over loopback TCP: a dials, b serves the accepted connection.
+func connectTCP(a, b erpc.Peer, pf erpc.ProtoFunc) (*bed.Link, error) {
+	lis, err := net.Listen("tcp", "127.0.0.1:0")
+	if err != nil {
+		return nil, err
+	}
+	defer lis.Close()
+	type acc struct {
+		s  erpc.Session
+		st *erpc.Status
+	}
+	ch := make(chan acc, 1)
+	go func() {
+		c, err := lis.Accept()
+		if err != nil {
+			ch <- acc{nil, erpc.NewStatus(1, "accept", err.Error())}
+			return
+		}
+		s, st := b.ServeConn(c, pf)
+		ch <- acc{s, st}
+	}()
+	sa, st := a.Dial(lis.Addr().String(), pf)
+	if !st.OK() {
+		return nil, fmt.Errorf("dial: %v", st)
+	}
+	r := <-ch
+	if !r.st.OK() {
+		return nil, fmt.Errorf("serve: %v", r.st)
+	}
+	ca, cb := memconn.NewPair() // placeholders so that Link users can call Sever/Close on them harmlessly
+	return &bed.Link{A: sa, B: r.s, CA: ca, CB: cb}, nil
 }
 
 // waitOrStall waits for the traffic goroutines; if nothing progresses any more and the process is
